@@ -481,7 +481,7 @@ func cmdCheck(args []string) int {
 		}
 		return 3
 	}
-	baseTO, floatTO, agree := 45, 300, 1 // quick: generous against a loaded machine; an unchanged tree never comes near it
+	baseTO, floatTO, agree := 60, 300, 1 // quick: generous against a loaded machine; an unchanged tree never comes near it
 	if *tier == "thorough" {
 		baseTO, floatTO, agree = 120, 1200, 2
 	}
